@@ -20,6 +20,10 @@ pub mod verif_export {
     pub fn blit(buffer: &mut Vec<u32>, width: usize, bitmap: BitmapEvent) -> RdpResult<()> {
         super::fast_bitmap_transfer(buffer, width, bitmap)
     }
+    /// the socket the GUI client hands to its receive thread, as `main` opens it
+    pub fn tcp(args: &ArgMatches) -> RdpResult<TcpStream> {
+        super::tcp_from_args(args)
+    }
 }
 "#;
     fs::write(Path::new(&out).join("mstsc_plain.rs"), format!("{}{}", src, export_plain)).unwrap();
